@@ -155,3 +155,51 @@ class SimContext:
         v = SimValue(typecode, init)
         self.created.append(v)
         return v
+
+
+class SimMmap(SimObj):
+    """mmap.mmap over a SimFile: the read position lives in the mapping object, i.e. in process memory, and is therefore
+    private to each process after a fork (vm.file_op)."""
+    kind = "mm"
+
+    def __init__(self, f):
+        super().__init__()
+        self.file = f
+        self.name = f.name + "mm"
+
+    def seek(self, *a):
+        raise RuntimeError("SimMmap used natively")
+
+    def readline(self, *a):
+        raise RuntimeError("SimMmap used natively")
+
+    def close(self, *a):
+        raise RuntimeError("SimMmap used natively")
+
+
+class SimFile(SimObj):
+    """A file on disk with `offsets` = start offsets of its lines and `size` = its length, seen through OS-level open file
+    descriptions: description 0 is the one the parent opened and every forked child inherits (ONE shared position);
+    open() in process p creates p's own description. Which description a process' handle refers to and the position of
+    every description are state variables (vm.file_op)."""
+    kind = "file"
+
+    def __init__(self, path, offsets, size, name="F"):
+        super().__init__()
+        self.name = name
+        self.path = path
+        self.offsets = list(offsets)
+        self.size = size
+        self.mm = SimMmap(self)
+
+    def seek(self, *a):
+        raise RuntimeError("SimFile used natively")
+
+    def readline(self, *a):
+        raise RuntimeError("SimFile used natively")
+
+    def close(self, *a):
+        raise RuntimeError("SimFile used natively")
+
+    def fileno(self, *a):
+        raise RuntimeError("SimFile used natively")
